@@ -9,12 +9,12 @@ PROP = 'C08'
 COQ_TARGETS = ['theories/NpciFacts.vo', 'theories/NpciMsgFacts.vo']
 COQ_IMPORTS = 'From Bac Require Import Base Npci.'
 RULE = ('cases: NPDU.encode over expecting-reply x priority 0..3 x DADR {none, station 1/6/255 octets, remote broadcast, global} x '
-        'SADR {none, station 1/6/255} x hop {0,1,254,255} x message {none, 0, 0x13, 0x7f, 0x80+vendor, 0xff+vendor} (quick: hop cycled; '
-        'thorough: full product), every message type 0..255 under two header shapes, refusing encodes (None/oversize fields, broadcast SADR); '
+        'SADR {none, station 1/6/255} x hop {0,1,254,255} x message {none, 0, 0x13, 0x7f, 0x80+vendor, 0xff+vendor} (quick: hop cycled, '
+        '255-octet MACs on a quarter of the grid; thorough: full product), every message type 0..255 under two header shapes, refusing encodes (None/oversize fields, broadcast SADR); '
         'NPDU.decode of every valid frame produced, of all 2^8 control octets x 6 well-formed/ill-formed continuations, all octet strings '
-        'of length <= 1 and [1,c], a grid (quick) / all (thorough) of 2-octet strings, random 3-octet strings, single-octet mutations / '
+        'of length <= 1 and [1,c], a grid of other 2-octet strings, all [1,c,x] (thorough), random 3-octet strings, single-octet mutations / '
         'deletions / insertions / truncations of valid frames; the 12 messages: network lists of length 0..20, routing tables with 0..5 '
-        'entries and port-info length {0,1,2,255,256}, boundary nets/octets, decode of every body of length <= 1 (and sampled 2..6) under '
+        'entries and port-info length {0,1,2,255,256}, boundary nets/octets, decode of bodies of length <= 1 (32 per type quick, all thorough) and sampled 2..6 under '
         'each of the 12 types, npdu_types lookup for all 256 type codes, whole frames (message.encode + NPDU.encode, NPDU.decode + '
         'npdu_types dispatch).  non-trivial = encode input with at least one optional field / parameter, or decode input of >= 3 octets; '
         'distinct by (operation, input).')
@@ -629,11 +629,11 @@ def cases(rng, tier):
             out.append(case_dec(rmac(rng, 3), 'dec-len3'))
     else:
         for a in range(256):
-            for b in [0x00, 0x04, 0x08, 0x20, 0x80, 0xA8, 0xFF, rng.randrange(256)]:
+            for b in [(0x00, 0x04, 0x08, 0x20, 0x80, 0xA8, 0xFF)[a % 7], rng.randrange(256)]:
                 out.append(case_dec(bytes([a, b]), 'dec-exh'))
-        for _ in range(600):
+        for _ in range(400):
             out.append(case_dec(bytes([1, rng.randrange(256), rng.randrange(256)]), 'dec-len3'))
-        for _ in range(200):
+        for _ in range(100):
             out.append(case_dec(rmac(rng, 3), 'dec-len3'))
     for _ in range(3000 if big else 500):
         out.append(case_dec(mutate(rng, rng.choice(valid_frames)), 'dec-mutated'))
@@ -665,11 +665,12 @@ def cases(rng, tier):
     # registry: every type code
     for t in range(256):
         out.append(case_dec_msg(t, b'', 'registry'))
-        out.append(case_dec_msg(t, bytes([0, 7, 1, 0, 9, 2, 1, 0xEE]), 'registry'))
+        if big or t < 0x20 or t % 8 == 0:
+            out.append(case_dec_msg(t, bytes([0, 7, 1, 0, 9, 2, 1, 0xEE]), 'registry'))
     out.append(case_dec_msg(256, b'\x00\x01', 'registry'))
     # every body of length <= 1 under each registered type; sampled longer ones
     for t in CODES:
-        for a in range(256):
+        for a in (range(256) if big else sorted(set([0, 1, 2, 3, 127, 128, 254, 255] + [rng.randrange(256) for _ in range(24)]))):
             out.append(case_dec_msg(t, bytes([a]), 'msg-dec-exh'))
         for _ in range(600 if big else 60):
             out.append(case_dec_msg(t, rmac(rng, rng.choice([2, 2, 3, 4, 5, 6])), 'msg-dec-short'))
